@@ -220,6 +220,7 @@ nsteps   =  100
 ; nsteps = 5
 tc-grps = System
 nstxout=10
+nstxout-compressed = 500
 """
 
 
@@ -280,6 +281,14 @@ CP2K_INP = """&GLOBAL
 &END MOTION
 &FORCE_EVAL
   METHOD QS
+  &DFT
+    &SCF
+      EPS_SCF 1.0E-6
+      EPS_SCF_HISTORY 0.1
+      MAX_SCF 50
+      MAX_SCF_HISTORY 3
+    &END SCF
+  &END DFT
   &SUBSYS
     &KIND H
       BASIS_SET DZVP
@@ -373,6 +382,7 @@ CP2K_OPS = [
     ("replace", "GLOBAL", ["PROJECT x", "RUN_TYPE MD"]),
     ("replace", "FORCE_EVAL->SUBSYS->COORD", ["H 1 2 3"]),
     ("data", "FORCE_EVAL->SUBSYS->KIND->H", {"BASIS_SET": "SZV"}),
+    ("data", "FORCE_EVAL->DFT->SCF", {"EPS_SCF": "1.0E-7", "MAX_SCF": 20}),
     ("remove", "MOTION->MD->THERMOSTAT"),
     ("remove", "FORCE_EVAL->SUBSYS->COORD"),
     ("remove", "EXT_RESTART"),
